@@ -4218,6 +4218,11 @@ class SkoForallMacro(Macro):
         for hyp in prevs[0].hyps:
             if not (hyp.is_equals() and hyp.lhs in xs):
                 remain_hyps.append(hyp)
+
+        # The skolemized variables may not be left free in the result.
+        for x in xs:
+            if rhs.occurs_var(x) or any(hyp.occurs_var(x) for hyp in remain_hyps):
+                raise VeriTException("sko_forall", "skolemized variable %s occurs free in the result" % x)
         return Thm(goal, tuple(remain_hyps))
 
     def get_proof_term(self, args, prevs) -> ProofTerm:
